@@ -42,7 +42,7 @@ def patterns():
 
 def run(chk):
     th = build("plain")
-    n = 3000 if chk.thorough else 500
+    n = 10000 if chk.thorough else 500
     gen_progs = sem.generate(chk.seed + 8, n, canon=False) + sem.generate(chk.seed + 9, n // 3, canon=True)
     items = patterns() + [("gen%d" % p["seed"], {"files": p["files"], "main": p["main"]}) for p in gen_progs]
     recs, rc, err = run_th(th, ["compile", "--prog"], [dict(s, i=i) for i, (_, s) in enumerate(items)], timeout=900)
